@@ -17,13 +17,21 @@ def init_names(fb):
         return
     _NAMES_FOR[0] = fb
     q, g = set(), set()
+    qc = []
     for b in fb.bodies(common.DAEMON):
         if b.defkind == 'Closure' or not b.impl_trait or b.impl_trait.startswith('std::'):
             continue
         if common.reaches_call(fb, b, lambda n: n.startswith('chrony_candm::') and 'blocking_query' in n):
-            q.add(b.name)
-        elif b.argc == 1 and b.tystr(b.locals[0]['ty']) == 'bool' and common.reaches_call(fb, b, lambda n: n.endswith('Instant::elapsed')):
+            qc.append(b)
+        elif b.argc == 1 and b.tystr(b.locals[0]['ty']) == 'bool' and common.reaches_call(
+                fb, b, lambda n: n.endswith(('Instant::elapsed', 'Instant::now', 'Instant::duration_since'))):
             g.add(b.name)
+    # the query method proper is the innermost one: a trait method that merely reaches another candidate (a worker's `run`
+    # behind a private trait) is a caller of the query, not the query
+    for b in qc:
+        others = {o.path for o in qc if o is not b}
+        if not common.reaches_call(fb, b, lambda n: n in others):
+            q.add(b.name)
     if q:
         QUERY_METHODS.clear()
         QUERY_METHODS.update(q)
